@@ -127,6 +127,8 @@ class Model(object):
     # -- which calls do the rules allow?  (None = the statements do not say)
     def allowed(self, call):
         kind, arg = call
+        if kind == 'addnb':           # registration without a bib: the athlete gets the default bib '0'
+            kind = 'add'
         ph = self.phase
         if kind == 'q':
             return True           # a read-only query: always possible, never changes anything under the rules
@@ -167,6 +169,8 @@ class Model(object):
     # -- transition (call is known to have been accepted)
     def step(self, call, impl_state=None):
         kind, arg = call
+        if kind == 'addnb':
+            kind = 'add'
         if kind == 'q':
             self.qsteps = getattr(self, 'qsteps', 0) + 1
             return
